@@ -4,6 +4,7 @@ import FitModel.FitFormat
 import Driver.DecFrag
 -- @family raw Drv.RawD.hRaw
 -- @family rawdec Drv.RawD.hRawDec
+-- @family rawdech Drv.RawD.hRawDecUsed
 /-!
 `raw b:<hex> [s:<lens>] [fail=<j>]` — `decoder.NewRaw().Decode(r, fn)` over a reader delivering the bytes according
 to the schedule (`bytes.NewReader` without `s:`); `fn` fails at its `j`-th call. Answer: how it ended, the returned
@@ -275,5 +276,16 @@ def hRawDec : Handler := fun r =>
     | .spec => "n/a"
     | .kf => "-"
     | .prop => propRawDec bs r.impl
+
+/-- `rawdech m:<0|1> pre:<hex> b:<hex>`: as `rawdec b:<hex>` with a full decoder that was used before (PeekFileId [+ Discard]
+on `pre`, then Reset onto `b`). C16 quantifies over streams; what a decoder did before does not enter (C07): the model's
+answer and the property are those of `rawdec b:<hex>` — a decoder that carries definitions over from `pre` shows as a
+correspondence difference and as a stream the full decoder accepts and the raw decoder rejects. -/
+def hRawDecUsed : Handler := fun r =>
+  match r.args with
+  | [m, pre, b] =>
+    if (m == "m:0" || m == "m:1") && ((stripPrefix? pre "pre:").bind unhex).isSome then hRawDec { r with args := [b] }
+    else if r.mode == .model then "bad-op" else if r.mode == .kf then "-" else "n/a"
+  | _ => if r.mode == .model then "bad-op" else if r.mode == .kf then "-" else "n/a"
 
 end Drv.RawD
